@@ -45,6 +45,7 @@ partial def parseExpr (table : Array Expr) (j : Json) : Expr :=
      | [a] => .message a
      | _ => .message (jS j "m"))
   | "echo" => .echo
+  | "gen" => .plain ["gen".toList]
   | "filter" => .filter (jstrs j "xs") inner
   | "filterArgs" => .filterArgs inner
   | "filterParts" => .filterParts inner
@@ -232,7 +233,26 @@ def runInvoke (inp out : Json) : Json :=
           if r.1 == pi.1 && canonValues r.2 == canonValues (pi.2.map (fun v => { v with value := p ++ v.value })) then []
           else [{ prop := "C12", code := "prefix_law", detail := s!"typed {String.ofList c.value} prefix {String.ofList p}: got {showInvoked r}, completion of the rest is {showInvoked pi}" }]
         | _, _ => []
-      law ++ (match inner with
+      -- C09: a Batch yields the union of what its members yield one after the other
+      let membersJ := jarr out "members"
+      let batchFails : List AFail :=
+        match e with
+        | .batch es =>
+          if es.length < 2 || membersJ.size != es.length then [] else
+          let ms := membersJ.toList.filterMap parseResult
+          if ms.length != es.length then [] else
+          let allVals := ms.flatMap (·.2)
+          -- merged by inserted value, a later member's entry replacing an earlier one
+          let lastWins := allVals.reverse.foldl (fun acc v => if acc.any (fun x => x.value == v.value) then acc else v :: acc) []
+          let msgs := (ms.flatMap (·.1.messages)).eraseDups
+          let usage := ((ms.map (·.1.usage)).filter (fun u => !u.isEmpty)).getLast?.getD []
+          let nsAll := ms.flatMap (·.1.nospace)
+          let nsOk := if nsAll.elem '*' then r.1.nospace == ['*'] else nsAll.all (fun ch => r.1.nospace.elem ch) && r.1.nospace.all (fun ch => nsAll.elem ch)
+          if canonValues r.2 == canonValues lastWins && msgs.all (fun m => r.1.messages.elem m) && r.1.messages.all (fun m => msgs.elem m)
+             && r.1.usage == usage && nsOk then []
+          else [{ prop := "C09", code := "batch_differs_from_sequential", detail := s!"batch yields {showInvoked r}; members one after the other: {ms.map showInvoked}" }]
+        | _ => []
+      batchFails ++ law ++ (match inner with
       | some i => checkFrame e c r i
       | none => [])
   Json.mkObj [("same", Json.bool same),
